@@ -84,8 +84,19 @@ func main() {
 	waitYield() // R0 runs to its first point (or to the start of the event loop)
 	// the main flow adds "." to the watcher concurrently with the initial regeneration: wait for it, so that the first
 	// edit is seen (an edit before the watch exists is lost in the real program too; that start-up window is not explored)
-	w0 := veriffsn.WaitCreated()
-	for !w0.Watches(sc.Dir) {
+	// If the watch does not appear while the initial regeneration is parked at its first point (it has not read anything yet),
+	// the session only starts watching after that regeneration: an edit made meanwhile raises no event and the output stays stale.
+	// That is reported as such (30 s is a hang classifier, the watch normally exists within microseconds).
+	w0 := veriffsn.WaitCreatedFor(30 * time.Second)
+	if w0 == nil {
+		fmt.Fprintln(realStdout, `{"unwatched_at_start":true}`)
+		os.Exit(0)
+	}
+	for deadline := time.Now().Add(30 * time.Second); !w0.Watches(sc.Dir); {
+		if time.Now().After(deadline) {
+			fmt.Fprintln(realStdout, `{"unwatched_at_start":true}`)
+			os.Exit(0)
+		}
 		time.Sleep(time.Millisecond)
 	}
 	for {
